@@ -251,11 +251,12 @@ func (config ConfigDistribution) GetNamedParametersAsStrings(name string) ([]str
 }
 
 func (config ConfigDistribution) GetNamedParameterAsScalar(name string, t ScalarType) (Scalar, bool) {
-  if v, ok := config.getFloat(config.Parameters); !ok {
-    return nil, false
-  } else {
-    return NewScalar(t, v), true
+  if p, ok := config.GetNamedParameter(name); ok {
+    if v, ok := config.getFloat(p); ok {
+      return NewScalar(t, v), true
+    }
   }
+  return nil, false
 }
 
 func (config ConfigDistribution) GetNamedParameterAsBool(name string) (bool, bool) {
